@@ -1,4 +1,1006 @@
-//! C17 — gvar subsetting: correspondence cases + oracles (filled in by the gvar model work).
+//! C17 — gvar subsetting (`klippa/src/gvar.rs`): correspondence with `FontVerif.SubsetGvar` + oracles on the real code.
+//!
+//! For every request the REAL `klippa::subset_font` runs (plan made exactly like `make_plan` in c17.rs) on
+//!  (α) every corpus font with a gvar table, (β) synthetic variable fonts assembled here (glyf + fvar + gvar built by
+//! hand: short/long source offsets, odd/even blob sizes, empty blobs, glyphs beyond the gvar glyph count, truncated
+//! tables, shared tuple count 0 / offset null / N tuples / before or after the data, totals around 0x1FFFE, many glyphs).
+//!  * correspondence (`gvar`): the model gets the 12 header bytes, the shared tuple slice, the plan's (new, old) list and
+//!    `Gvar::data_for_gid(old)` of every entry and must produce the emitted gvar table byte for byte;
+//!    (`gvar-read`): the Lean reader used by the read-back theorems against `Gvar::data_for_gid` on emitted tables;
+//!  * oracles (model independent): data / shared tuples / parsed tuple lists / drawn outlines at non-default locations
+//!    of every kept glyph are those of the original, unused ids are empty, glyphCount = number of output glyphs.
 use fv_harness::common::*;
+use klippa::{subset_font, verif_hooks as vh, Plan, SubsetFlags};
+use read_fonts::collections::IntSet;
+use read_fonts::tables::gvar::Gvar;
+use read_fonts::types::{GlyphId, NameId, Tag};
+use read_fonts::{FontRef, TableProvider};
+use skrifa::instance::{Location, LocationRef, Size};
+use skrifa::outline::{DrawSettings, OutlinePen};
+use skrifa::MetadataProvider;
+use write_fonts::FontBuilder;
 
-pub fn run(_cfg: &Config, _s: &mut Session, _r: &mut Rng) {}
+const F_RETAIN_GIDS: u16 = 0x0002;
+const F_NOTDEF_OUTLINE: u16 = 0x0040;
+
+// ---------------------------------------------------------------------------------------------
+// synthetic variable fonts
+// ---------------------------------------------------------------------------------------------
+
+#[derive(Clone, Copy, PartialEq, Debug)]
+enum SharedAt {
+    /// right after the offsets array (where klippa puts them)
+    Before,
+    /// after the glyph variation data
+    After,
+    /// sharedTuplesOffset = 0 (the count field keeps its value)
+    Null,
+    /// the offset points so close to the end of the table that the tuples do not fit
+    Beyond,
+}
+
+#[derive(Clone)]
+struct GvSyn {
+    name: String,
+    /// points per glyph (0 = empty glyph record)
+    npts: Vec<usize>,
+    axis_count: u16,
+    shared_count: u16,
+    /// the shared tuple bytes as stored (normally 2 * axis_count * shared_count)
+    shared: Vec<u8>,
+    shared_at: SharedAt,
+    long_src: bool,
+    /// one blob per glyph the gvar table knows (may be fewer than the font has glyphs)
+    blobs: Vec<Vec<u8>>,
+    /// bytes removed from the end of the finished table (the last blobs become out-of-bounds)
+    tail_cut: usize,
+    /// per gvar glyph: the blob is a well-formed GlyphVariationData (random bytes otherwise)
+    valid: Vec<bool>,
+}
+
+fn p16(out: &mut Vec<u8>, v: i32) {
+    out.extend_from_slice(&(v as i16).to_be_bytes());
+}
+fn pu16(out: &mut Vec<u8>, v: u32) {
+    out.extend_from_slice(&(v as u16).to_be_bytes());
+}
+fn pu32(out: &mut Vec<u8>, v: u32) {
+    out.extend_from_slice(&v.to_be_bytes());
+}
+
+fn glyph_record(gid: usize, k: usize) -> Vec<u8> {
+    if k == 0 {
+        return vec![];
+    }
+    let mut g = vec![];
+    p16(&mut g, 1);
+    for v in [0, 0, 600, 700] {
+        p16(&mut g, v);
+    }
+    pu16(&mut g, k as u32 - 1);
+    pu16(&mut g, 0);
+    g.extend(std::iter::repeat(0x01u8).take(k));
+    for i in 0..k {
+        p16(&mut g, if i == 0 { (gid % 50) as i32 } else if i % 2 == 1 { 40 + (gid % 13) as i32 } else { -17 });
+    }
+    for i in 0..k {
+        p16(&mut g, if i == 0 { 0 } else if i < k / 2 + 1 { 55 } else { -30 - (gid % 5) as i32 });
+    }
+    g
+}
+
+fn build_gvar(sf: &GvSyn) -> Vec<u8> {
+    let gc = sf.blobs.len();
+    let osz = if sf.long_src { 4 } else { 2 };
+    let mut data: Vec<u8> = vec![];
+    let mut offs: Vec<u32> = vec![0];
+    for b in &sf.blobs {
+        data.extend_from_slice(b);
+        if !sf.long_src && data.len() % 2 == 1 {
+            data.push(0);
+        }
+        offs.push(data.len() as u32);
+    }
+    let arr_end = 20 + (gc as u32 + 1) * osz;
+    let (shared_off, data_off) = match sf.shared_at {
+        SharedAt::Before => (arr_end, arr_end + sf.shared.len() as u32),
+        SharedAt::After => (arr_end + data.len() as u32, arr_end),
+        SharedAt::Null => (0, arr_end + sf.shared.len() as u32),
+        SharedAt::Beyond => (arr_end + data.len() as u32 + 1, arr_end),
+    };
+    let mut t = vec![];
+    pu16(&mut t, 1);
+    pu16(&mut t, 0);
+    pu16(&mut t, sf.axis_count as u32);
+    pu16(&mut t, sf.shared_count as u32);
+    pu32(&mut t, shared_off);
+    pu16(&mut t, gc as u32);
+    pu16(&mut t, if sf.long_src { 1 } else { 0 });
+    pu32(&mut t, data_off);
+    for o in &offs {
+        if sf.long_src {
+            pu32(&mut t, *o);
+        } else {
+            pu16(&mut t, *o / 2);
+        }
+    }
+    match sf.shared_at {
+        SharedAt::Before | SharedAt::Null => {
+            t.extend_from_slice(&sf.shared);
+            t.extend_from_slice(&data);
+        }
+        SharedAt::After | SharedAt::Beyond => {
+            t.extend_from_slice(&data);
+            t.extend_from_slice(&sf.shared);
+        }
+    }
+    let keep = t.len().saturating_sub(sf.tail_cut).max(arr_end as usize);
+    t.truncate(keep);
+    t
+}
+
+fn build_font(sf: &GvSyn) -> Vec<u8> {
+    let n = sf.npts.len();
+    let mut glyf: Vec<u8> = vec![];
+    let mut loca = vec![];
+    pu32(&mut loca, 0);
+    for (gid, k) in sf.npts.iter().enumerate() {
+        glyf.extend_from_slice(&glyph_record(gid, *k));
+        if glyf.len() % 2 == 1 {
+            glyf.push(0);
+        }
+        pu32(&mut loca, glyf.len() as u32);
+    }
+    if glyf.is_empty() {
+        glyf.push(0);
+    }
+    let mut head = vec![];
+    pu32(&mut head, 0x0001_0000);
+    pu32(&mut head, 0x0001_0000);
+    pu32(&mut head, 0);
+    pu32(&mut head, 0x5F0F_3CF5);
+    pu16(&mut head, 0);
+    pu16(&mut head, 1000);
+    head.extend_from_slice(&[0; 16]);
+    for v in [-100, -100, 1000, 1000] {
+        p16(&mut head, v);
+    }
+    pu16(&mut head, 0);
+    pu16(&mut head, 8);
+    p16(&mut head, 2);
+    p16(&mut head, 1);
+    p16(&mut head, 0);
+    let mut hhea = vec![];
+    pu32(&mut hhea, 0x0001_0000);
+    for v in [800, -200, 0, 1000, 0, 0, 1000, 1, 0, 0] {
+        p16(&mut hhea, v);
+    }
+    hhea.extend_from_slice(&[0; 8]);
+    p16(&mut hhea, 0);
+    pu16(&mut hhea, n as u32);
+    let mut maxp = vec![];
+    pu32(&mut maxp, 0x0001_0000);
+    pu16(&mut maxp, n as u32);
+    for v in [400u32, 8, 800, 16, 2, 4, 5, 6, 7, 64, 300, 8, 8] {
+        pu16(&mut maxp, v);
+    }
+    let mut hmtx = vec![];
+    for i in 0..n {
+        pu16(&mut hmtx, 500 + (i % 7) as u32);
+        p16(&mut hmtx, (i % 5) as i32);
+    }
+    let cmap = {
+        let maps: Vec<(char, GlyphId)> =
+            (1..n.min(90)).filter_map(|g| char::from_u32(0x40 + g as u32).map(|c| (c, GlyphId::new(g as u32)))).collect();
+        let t = write_fonts::tables::cmap::Cmap::from_mappings(maps).expect("cmap");
+        write_fonts::dump_table(&t).expect("cmap dump")
+    };
+    let mut fvar = vec![];
+    pu16(&mut fvar, 1);
+    pu16(&mut fvar, 0);
+    pu16(&mut fvar, 16);
+    pu16(&mut fvar, 2);
+    pu16(&mut fvar, sf.axis_count as u32);
+    pu16(&mut fvar, 20);
+    pu16(&mut fvar, 0);
+    pu16(&mut fvar, 4 + 4 * sf.axis_count as u32);
+    for a in 0..sf.axis_count as u32 {
+        let tag: [u8; 4] = match a {
+            0 => *b"wght",
+            1 => *b"wdth",
+            2 => *b"opsz",
+            _ => [b'A', b'0' + (a / 100 % 10) as u8, b'0' + (a / 10 % 10) as u8, b'0' + (a % 10) as u8],
+        };
+        fvar.extend_from_slice(&tag);
+        pu32(&mut fvar, 100 << 16);
+        pu32(&mut fvar, 400 << 16);
+        pu32(&mut fvar, 900 << 16);
+        pu16(&mut fvar, 0);
+        pu16(&mut fvar, 256 + a);
+    }
+    let mut b = FontBuilder::new();
+    b.add_raw(Tag::new(b"head"), head);
+    b.add_raw(Tag::new(b"hhea"), hhea);
+    b.add_raw(Tag::new(b"maxp"), maxp);
+    b.add_raw(Tag::new(b"hmtx"), hmtx);
+    b.add_raw(Tag::new(b"cmap"), cmap);
+    b.add_raw(Tag::new(b"loca"), loca);
+    b.add_raw(Tag::new(b"glyf"), glyf);
+    b.add_raw(Tag::new(b"fvar"), fvar);
+    b.add_raw(Tag::new(b"gvar"), build_gvar(sf));
+    b.build()
+}
+
+/// a well-formed GlyphVariationData for a glyph with `npoints` points (incl. the 4 phantom points)
+fn valid_blob(r: &mut Rng, npoints: usize, axis_count: u16, shared_count: u16) -> Vec<u8> {
+    let tcount = 1 + r.below(3) as usize;
+    let mut headers: Vec<u8> = vec![];
+    let mut datas: Vec<u8> = vec![];
+    for _ in 0..tcount {
+        let mut d: Vec<u8> = vec![];
+        let nd = if r.chance(1, 2) || npoints < 4 {
+            d.push(0);
+            npoints
+        } else {
+            let c = 1 + r.below((npoints / 2).min(5) as u64) as usize;
+            d.push(c as u8);
+            d.push(c as u8 - 1);
+            d.push(r.below(2) as u8);
+            for _ in 1..c {
+                d.push(1 + r.below(2) as u8);
+            }
+            c
+        };
+        for _xy in 0..2 {
+            match r.below(3) {
+                0 => {
+                    d.push(nd as u8 - 1);
+                    for _ in 0..nd {
+                        d.push(r.range(-90, 90) as i8 as u8);
+                    }
+                }
+                1 => {
+                    d.push(0x40 | (nd as u8 - 1));
+                    for _ in 0..nd {
+                        d.extend_from_slice(&(r.range(-700, 700) as i16).to_be_bytes());
+                    }
+                }
+                _ => d.push(0x80 | (nd as u8 - 1)),
+            }
+        }
+        let use_shared = shared_count > 0 && r.chance(1, 2);
+        pu16(&mut headers, d.len() as u32);
+        if use_shared {
+            pu16(&mut headers, 0x2000 | r.below(shared_count as u64) as u32);
+        } else {
+            pu16(&mut headers, 0x2000 | 0x8000);
+            for _ in 0..axis_count {
+                p16(&mut headers, *r.pick(&[0x4000, -0x4000, 0x2000, 0x1000, 0]));
+            }
+        }
+        datas.extend_from_slice(&d);
+    }
+    let mut b = vec![];
+    pu16(&mut b, tcount as u32);
+    pu16(&mut b, 4 + headers.len() as u32);
+    b.extend_from_slice(&headers);
+    b.extend_from_slice(&datas);
+    b
+}
+
+fn rand_shared(r: &mut Rng, axis_count: u16, count: u16) -> Vec<u8> {
+    let mut v = vec![];
+    for _ in 0..(axis_count as usize * count as usize) {
+        p16(&mut v, *r.pick(&[0x4000, -0x4000, 0x2000, -0x2000, 0x3000, 0]));
+    }
+    v
+}
+
+fn syn_small(r: &mut Rng, id: u64) -> GvSyn {
+    let n = 2 + r.below(if id % 8 == 0 { 60 } else { 14 }) as usize;
+    let axis_count = 1 + r.below(3) as u16;
+    let shared_count = *r.pick(&[0u16, 0, 1, 2, 5]);
+    let shared_at = match r.below(10) {
+        0 => SharedAt::Null,
+        1 | 2 | 3 => SharedAt::After,
+        _ => SharedAt::Before,
+    };
+    let long_src = r.chance(1, 2);
+    let npts: Vec<usize> = (0..n).map(|_| if r.chance(1, 8) { 0 } else { 3 + r.below(8) as usize }).collect();
+    let known = if r.chance(1, 6) { n - 1 - r.below((n as u64 - 1).min(3)) as usize } else { n };
+    let style = r.below(4);
+    let mut valid = vec![];
+    let blobs: Vec<Vec<u8>> = (0..known)
+        .map(|g| {
+            if npts[g] == 0 || r.chance(1, 5) {
+                valid.push(true);
+                vec![]
+            } else if style == 0 || (style == 1 && r.chance(1, 3)) {
+                valid.push(false);
+                let len = 1 + r.below(60) as usize;
+                r.bytes(len)
+            } else {
+                valid.push(true);
+                valid_blob(r, npts[g] + 4, axis_count, if shared_at == SharedAt::Null { 0 } else { shared_count })
+            }
+        })
+        .collect();
+    let tail_cut = if r.chance(1, 8) { 1 + r.below(40) as usize } else { 0 };
+    GvSyn {
+        name: format!("syn:gvar-small#{id}"),
+        npts,
+        axis_count,
+        shared_count,
+        shared: rand_shared(r, axis_count, shared_count),
+        shared_at,
+        long_src,
+        blobs,
+        tail_cut,
+        valid,
+    }
+}
+
+/// kept data around a target total: distractor glyphs first (tiny blobs), then `k` glyphs of `unit` bytes and a tuner
+fn syn_sized(name: &str, sizes: &[usize], long_src: bool, shared_count: u16, shared_at: SharedAt, r: &mut Rng) -> GvSyn {
+    let n = sizes.len();
+    GvSyn {
+        name: name.to_string(),
+        npts: vec![3; n],
+        axis_count: 2,
+        shared_count,
+        shared: rand_shared(r, 2, shared_count),
+        shared_at,
+        long_src,
+        blobs: sizes.iter().map(|s| r.bytes(*s)).collect(),
+        tail_cut: 0,
+        valid: vec![false; n],
+    }
+}
+
+// ---------------------------------------------------------------------------------------------
+// requests
+// ---------------------------------------------------------------------------------------------
+
+struct Req {
+    gids: Vec<u32>,
+    unicodes: Vec<u32>,
+    flags: u16,
+}
+
+/// the plan recipe of c17.rs `make_plan`
+fn make_plan(font: &FontRef, req: &Req) -> Plan {
+    let mut gids = IntSet::<GlyphId>::empty();
+    for g in &req.gids {
+        gids.insert(GlyphId::new(*g));
+    }
+    let mut unicodes = IntSet::<u32>::empty();
+    for u in &req.unicodes {
+        unicodes.insert(*u);
+    }
+    let drop_tables = IntSet::<Tag>::empty();
+    let mut layout_scripts = IntSet::<Tag>::empty();
+    layout_scripts.invert();
+    let mut layout_features = IntSet::<Tag>::empty();
+    layout_features.extend(klippa::DEFAULT_LAYOUT_FEATURES.iter().copied());
+    let mut name_ids = IntSet::<NameId>::empty();
+    name_ids.insert_range(NameId::from(0)..=NameId::from(6));
+    let mut name_languages = IntSet::<u16>::empty();
+    name_languages.insert(0x0409);
+    Plan::new(
+        &gids,
+        &unicodes,
+        font,
+        SubsetFlags::from(req.flags),
+        &drop_tables,
+        &layout_scripts,
+        &layout_features,
+        &name_ids,
+        &name_languages,
+    )
+}
+
+fn input_str(label: &str, req: &Req) -> String {
+    format!(
+        "font={label} flags={:#x} gids=[{}] unicodes=[{}]",
+        req.flags,
+        join(&req.gids),
+        req.unicodes.iter().map(|u| format!("{u:x}")).collect::<Vec<_>>().join(" ")
+    )
+}
+
+fn table<'a>(font: &FontRef<'a>, tag: &[u8; 4]) -> Option<&'a [u8]> {
+    font.table_data(Tag::new(tag)).map(|d| d.as_bytes())
+}
+
+fn hexs(b: &[u8]) -> String {
+    if b.is_empty() {
+        "-".into()
+    } else {
+        hex(b)
+    }
+}
+
+/// `data_for_gid` as the three-way result the subsetter distinguishes
+fn slot(gvar: &Gvar, gid: u32) -> String {
+    match gvar.data_for_gid(GlyphId::new(gid)) {
+        Ok(None) => "-".into(),
+        Err(_) => "E".into(),
+        Ok(Some(d)) => hex(d.as_bytes()),
+    }
+}
+
+fn data_of(gvar: &Gvar, gid: u32) -> Result<Option<Vec<u8>>, String> {
+    gvar.data_for_gid(GlyphId::new(gid)).map(|o| o.map(|d| d.as_bytes().to_vec())).map_err(|e| e.to_string())
+}
+
+/// parsed tuple list of one glyph: peak / intermediate region + explicit deltas of every tuple
+fn tuples_obs(gvar: &Gvar, gid: u32) -> String {
+    let r = catch(|| match gvar.glyph_variation_data(GlyphId::new(gid)) {
+        Err(e) => format!("err:{e}"),
+        Ok(None) => "none".to_string(),
+        Ok(Some(v)) => {
+            let mut s = String::new();
+            for (i, t) in v.tuples().enumerate() {
+                if i >= 64 {
+                    s.push_str("...");
+                    break;
+                }
+                let peak: Vec<i16> = t.peak().values.iter().map(|x| x.get().to_bits()).collect();
+                let is: Option<Vec<i16>> = t.intermediate_start().map(|t| t.values.iter().map(|x| x.get().to_bits()).collect());
+                let ie: Option<Vec<i16>> = t.intermediate_end().map(|t| t.values.iter().map(|x| x.get().to_bits()).collect());
+                s.push_str(&format!("T{i} peak={peak:?} is={is:?} ie={ie:?} all={} d=[", t.has_deltas_for_all_points()));
+                for (j, d) in t.deltas().enumerate() {
+                    if j >= 300 {
+                        s.push_str("...");
+                        break;
+                    }
+                    s.push_str(&format!("{}:{},{} ", d.position, d.x_delta, d.y_delta));
+                }
+                s.push_str("] ");
+            }
+            s
+        }
+    });
+    r.unwrap_or_else(|e| format!("panic:{e}"))
+}
+
+#[derive(Default)]
+struct Rec(String);
+impl OutlinePen for Rec {
+    fn move_to(&mut self, x: f32, y: f32) {
+        self.0.push_str(&format!("M{:x},{:x} ", x.to_bits(), y.to_bits()));
+    }
+    fn line_to(&mut self, x: f32, y: f32) {
+        self.0.push_str(&format!("L{:x},{:x} ", x.to_bits(), y.to_bits()));
+    }
+    fn quad_to(&mut self, a: f32, b: f32, x: f32, y: f32) {
+        self.0.push_str(&format!("Q{:x},{:x},{:x},{:x} ", a.to_bits(), b.to_bits(), x.to_bits(), y.to_bits()));
+    }
+    fn curve_to(&mut self, a: f32, b: f32, c: f32, d: f32, x: f32, y: f32) {
+        self.0.push_str(&format!(
+            "C{:x},{:x},{:x},{:x},{:x},{:x} ",
+            a.to_bits(), b.to_bits(), c.to_bits(), d.to_bits(), x.to_bits(), y.to_bits()
+        ));
+    }
+    fn close(&mut self) {
+        self.0.push_str("Z ");
+    }
+}
+
+/// non-default locations: all axes at max, all at min, an interior point
+fn var_locations(font: &FontRef) -> Vec<Location> {
+    let axes = font.axes();
+    let mut out = vec![];
+    for frac in [1.0f32, -1.0, 0.37] {
+        let user: Vec<(Tag, f32)> = axes
+            .iter()
+            .map(|a| {
+                let v = if frac >= 0.0 {
+                    a.default_value() + (a.max_value() - a.default_value()) * frac
+                } else {
+                    a.default_value() + (a.default_value() - a.min_value()) * frac
+                };
+                (a.tag(), v)
+            })
+            .collect();
+        out.push(axes.location(user));
+    }
+    out
+}
+
+fn outline_at(font: &FontRef, gid: u32, locs: &[Location]) -> String {
+    let coll = font.outline_glyphs();
+    let mut s = String::new();
+    for (li, loc) in locs.iter().enumerate() {
+        let r = catch(|| {
+            let mut pen = Rec::default();
+            match coll.get(GlyphId::new(gid)) {
+                None => "none".to_string(),
+                Some(g) => match g.draw(DrawSettings::unhinted(Size::unscaled(), LocationRef::from(loc)), &mut pen) {
+                    Ok(_) => pen.0,
+                    Err(e) => format!("err:{e}"),
+                },
+            }
+        });
+        s.push_str(&format!("[l{li}] {} ", r.unwrap_or_else(|e| format!("panic:{e}"))));
+    }
+    s
+}
+
+struct Ctx<'a> {
+    label: String,
+    data: &'a [u8],
+    /// per old gid: the blob is known to be well formed (None: a real font, all are)
+    valid: Option<Vec<bool>>,
+    /// draw kept glyphs at non-default locations (fonts whose blobs are well formed)
+    draw: bool,
+}
+
+fn run_request(s: &mut Session, fc: &Ctx, req: &Req) {
+    let Ok(font) = FontRef::new(fc.data) else { return };
+    let Ok(gvar) = font.gvar() else { return };
+    let Some(gvar_bytes) = table(&font, b"gvar") else { return };
+    let input = input_str(&fc.label, req);
+    let planned = catch(|| {
+        let plan = make_plan(&font, req);
+        let view = vh::plan_view(&plan);
+        (plan, view)
+    });
+    let (plan, view) = match planned {
+        Ok(x) => x,
+        Err(e) => {
+            s.count("gvar:plan-panicked");
+            if std::env::var("C17_GVAR_DEBUG").is_ok() {
+                eprintln!("plan panicked: {input}: {e}");
+            }
+            return;
+        }
+    };
+    let result = catch(|| subset_font(&font, &plan));
+    let nout = view.num_output_glyphs;
+    let n2o = &view.new_to_old_gid_list;
+    let notdef_outline = req.flags & F_NOTDEF_OUTLINE != 0;
+
+    // ---- the model's inputs, read off the original with the real reader
+    let axis_count = gvar.axis_count() as usize;
+    let shared_count = gvar.shared_tuple_count() as usize;
+    let shared_off = gvar.shared_tuples_offset().to_u32() as usize;
+    let shared_size = 2 * axis_count * shared_count;
+    let shared_slice = match shared_off.checked_add(shared_size).and_then(|e| gvar_bytes.get(shared_off..e)) {
+        Some(b) => hexs(b),
+        None => "X".to_string(),
+    };
+    let slots: Vec<String> = n2o.iter().map(|(_, old)| slot(&gvar, *old)).collect();
+    let line = format!(
+        "c17.gvar {} {} {} {} H {} T {} M {} D {}",
+        req.flags,
+        nout,
+        gvar_bytes.len(),
+        view.font_num_glyphs,
+        hex(&gvar_bytes[0..12]),
+        shared_slice,
+        if n2o.is_empty() { "-".to_string() } else { n2o.iter().map(|(a, b)| format!("{a} {b}")).collect::<Vec<_>>().join(" ") },
+        if slots.is_empty() { "-".to_string() } else { slots.join(" ") },
+    );
+
+    // ---- what the real code did
+    let (resp, subset) = match &result {
+        Err(_) => ("trap".to_string(), None),
+        Ok(Err(_)) => ("err".to_string(), None),
+        Ok(Ok(bytes)) => match FontRef::new(bytes).ok().and_then(|f| table(&f, b"gvar").map(|t| t.to_vec())) {
+            None => ("dropped".to_string(), Some(bytes.clone())),
+            Some(t) => (format!("ok {}", hex(&t)), Some(bytes.clone())),
+        },
+    };
+    // other tables of a corpus font may fail on their own: only an Err that names gvar belongs here
+    let foreign_err = matches!(&result, Ok(Err(e)) if !format!("{e:?}").contains("gvar"));
+    if foreign_err {
+        s.count("gvar:other-table-error");
+        return;
+    }
+    s.count(&format!("gvar:outcome:{}", resp.split(' ').next().unwrap_or("")));
+    s.case("gvar", line, resp.clone());
+
+    // ---- distributions
+    let retain = req.flags & F_RETAIN_GIDS != 0;
+    s.count(if retain { "gvar:retain-gids" } else { "gvar:renumber" });
+    s.count(if gvar.flags().bits() & 1 != 0 { "gvar:source-long" } else { "gvar:source-short" });
+    s.count(match (shared_count, shared_off) {
+        (0, _) => "gvar:shared:count0",
+        (_, 0) => "gvar:shared:offset-null",
+        _ => "gvar:shared:present",
+    });
+    let mut kept_total = 0usize;
+    let mut odd = 0usize;
+    for ((new, _), sl) in n2o.iter().zip(&slots) {
+        if *new == 0 && !notdef_outline {
+            s.count("gvar:notdef-filtered");
+            continue;
+        }
+        match sl.as_str() {
+            "-" => s.count("gvar:blob:none"),
+            "E" => s.count("gvar:blob:err"),
+            h => {
+                kept_total += h.len() / 2;
+                if (h.len() / 2) % 2 == 1 {
+                    odd += 1;
+                    s.count("gvar:blob:odd");
+                } else {
+                    s.count("gvar:blob:even");
+                }
+            }
+        }
+    }
+    if odd > 0 {
+        s.count("gvar:request-with-odd-blobs");
+    }
+    s.count(match kept_total {
+        0 => "gvar:kept-bytes:0",
+        1..=0xFFFF => "gvar:kept-bytes:<64K",
+        0x10000..=0x1FFF0 => "gvar:kept-bytes:64K..0x1FFF0",
+        0x1FFF1..=0x1FFFE => "gvar:kept-bytes:0x1FFF1..=0x1FFFE",
+        0x1FFFF..=0x2000F => "gvar:kept-bytes:0x1FFFF..0x2000F",
+        _ => "gvar:kept-bytes:>0x2000F",
+    });
+    let gaps = nout.saturating_sub(n2o.len());
+    s.count(match gaps {
+        0 => "gvar:gaps:0",
+        1..=9 => "gvar:gaps:1-9",
+        _ => "gvar:gaps:10+",
+    });
+
+    // ---- oracles
+    let expect_table = !matches!(shared_slice.as_str(), "X") || shared_count == 0 || shared_off == 0;
+    if !expect_table {
+        s.count("gvar:hostile-shared-beyond-table");
+        return;
+    }
+    if resp == "err" && (gvar.glyph_count() as usize) < view.font_num_glyphs {
+        // malformed source (gvar knows fewer glyphs than the font has): the serializer room, derived from the source
+        // table's length, may not hold the new offsets array; subset_font reports the error, nothing is lost silently
+        s.count("gvar:err-on-source-with-short-glyph-count");
+        return;
+    }
+    s.oracle("gvar-table-kept", resp.starts_with("ok "), || input.clone(), || format!("outcome {}", &resp[..resp.len().min(40)]));
+    let Some(subset) = subset else { return };
+    let Ok(sfont) = FontRef::new(&subset) else { return };
+    let Ok(sg) = sfont.gvar() else { return };
+    s.count(if sg.flags().bits() & 1 != 0 { "gvar:chosen-long" } else { "gvar:chosen-short" });
+    s.oracle(
+        "gvar-glyph-count=num-output-glyphs",
+        sg.glyph_count() as usize == nout.min(0xFFFF) && sg.axis_count() == gvar.axis_count(),
+        || input.clone(),
+        || format!("glyphCount {} axisCount {} expected {} / {}", sg.glyph_count(), sg.axis_count(), nout, gvar.axis_count()),
+    );
+    // shared tuples
+    let st = |g: &Gvar| -> String {
+        match g.shared_tuples() {
+            Err(e) => format!("err:{e}"),
+            Ok(t) => {
+                let mut v = vec![];
+                for tu in t.tuples().iter().flatten() {
+                    v.push(tu.values().iter().map(|x| x.get().to_bits()).collect::<Vec<i16>>());
+                }
+                format!("{v:?}")
+            }
+        }
+    };
+    let (st_o, st_n) = if shared_count == 0 || shared_off == 0 {
+        // no usable shared tuples in the original: nothing indexes them; the subset must not invent any
+        ("[]".to_string(), if sg.shared_tuples_offset().to_u32() == 0 { "[]".to_string() } else { st(&sg) })
+    } else {
+        (st(&gvar), st(&sg))
+    };
+    s.oracle("gvar-shared-tuples-preserved", st_o == st_n && sg.shared_tuple_count() == gvar.shared_tuple_count(), || input.clone(), || {
+        format!("original {st_o} (count {}) subset {st_n} (count {})", gvar.shared_tuple_count(), sg.shared_tuple_count())
+    });
+    // per kept glyph
+    let chosen_short = sg.flags().bits() & 1 == 0;
+    let orig_shared_readable = gvar.shared_tuples().is_ok();
+    let locs = if fc.draw { var_locations(&font) } else { vec![] };
+    let mut used = std::collections::BTreeSet::new();
+    for (new, old) in n2o {
+        used.insert(*new);
+        let expected = if *new == 0 && !notdef_outline { None } else { data_of(&gvar, *old).ok().flatten() };
+        let got = data_of(&sg, *new);
+        // the short format addresses 2-byte units: an odd-sized blob is followed by one zero byte that the offsets
+        // include (exactly what write-fonts / fontTools produce); nothing else may differ
+        let padded = chosen_short
+            && matches!((&expected, &got), (Some(e), Ok(Some(g))) if e.len() % 2 == 1 && g.len() == e.len() + 1 && g[..e.len()] == e[..] && g[e.len()] == 0);
+        if padded {
+            s.count("gvar:blob-padded-in-short-format");
+        }
+        let ok = got.as_ref().ok() == Some(&expected) || padded;
+        s.oracle("gvar-data-preserved", ok, || format!("{input} new={new} old={old}"), || {
+            let e = expected.as_ref().map(|b| hex(&b[..b.len().min(24)]));
+            let g = got.as_ref().map(|o| o.as_ref().map(|b| hex(&b[..b.len().min(24)])));
+            format!(
+                "expected len {:?} {:?}.. got len {:?} {:?}..",
+                expected.as_ref().map(|b| b.len()),
+                e,
+                got.as_ref().ok().map(|o| o.as_ref().map(|b| b.len())),
+                g
+            )
+        });
+        let wellformed = fc.valid.as_ref().map(|v| v.get(*old as usize).copied().unwrap_or(true)).unwrap_or(true);
+        if expected.is_some() && !orig_shared_readable {
+            // the original cannot be decoded at all (its sharedTuplesOffset is null / out of bounds)
+            s.count("gvar:tuples-not-compared(original shared tuples unreadable)");
+        } else if expected.is_some() && padded && !wellformed {
+            // random bytes whose "tuples" run past the end of the blob see the padding byte
+            s.count("gvar:tuples-not-compared(padded random blob)");
+        } else if expected.is_some() {
+            let a = tuples_obs(&gvar, *old);
+            let b = tuples_obs(&sg, *new);
+            s.oracle("gvar-tuples-preserved", a == b, || format!("{input} new={new} old={old}"), || format!("original {a} subset {b}"));
+        }
+        if fc.draw && orig_shared_readable && (*new != 0 || notdef_outline) {
+            let a = outline_at(&font, *old, &locs);
+            let b = outline_at(&sfont, *new, &locs);
+            s.oracle("gvar-outline-at-locations-preserved", a == b, || format!("{input} new={new} old={old}"), || {
+                format!("original {} subset {}", &a[..a.len().min(300)], &b[..b.len().min(300)])
+            });
+        }
+    }
+    let mut unused_ok = true;
+    let mut first_bad = None;
+    for g in 0..nout.min(0xFFFF) as u32 {
+        if !used.contains(&g) {
+            let d = data_of(&sg, g);
+            if d != Ok(None) {
+                unused_ok = false;
+                first_bad.get_or_insert((g, d));
+            }
+        }
+    }
+    s.oracle("gvar-unused-gid-empty", unused_ok, || input.clone(), || format!("{first_bad:?}"));
+
+    // ---- the Lean reader against the real reader on the emitted table (small tables only)
+    if let Some(t) = table(&sfont, b"gvar") {
+        if t.len() <= 3000 {
+            let upto = (nout as u32 + 2).min(40);
+            for g in 0..upto {
+                let got = match sg.data_for_gid(GlyphId::new(g)) {
+                    Ok(None) => "none".to_string(),
+                    Err(_) => "err".to_string(),
+                    Ok(Some(d)) => format!("some {}", hex(d.as_bytes())),
+                };
+                s.case("gvar-read", format!("c17.gvarread {g} {}", hex(t)), got);
+            }
+        }
+    }
+}
+
+/// the Lean reader against the real reader on a (possibly malformed) source table
+fn read_cases(s: &mut Session, data: &[u8], upto: u32) {
+    let Ok(font) = FontRef::new(data) else { return };
+    let Some(t) = table(&font, b"gvar") else { return };
+    if t.len() > 3000 {
+        return;
+    }
+    match font.gvar() {
+        Err(_) => s.case("gvar-read", format!("c17.gvarread 0 {}", hex(t)), "unreadable".to_string()),
+        Ok(g) => {
+            for gid in 0..upto {
+                let got = match g.data_for_gid(GlyphId::new(gid)) {
+                    Ok(None) => "none".to_string(),
+                    Err(_) => "err".to_string(),
+                    Ok(Some(d)) => format!("some {}", hex(d.as_bytes())),
+                };
+                s.case("gvar-read", format!("c17.gvarread {gid} {}", hex(t)), got);
+            }
+        }
+    }
+}
+
+fn rand_request(r: &mut Rng, n: usize, cmap_cps: &[u32]) -> Req {
+    let flags = *r.pick(&[0u16, 0, F_RETAIN_GIDS, F_NOTDEF_OUTLINE, F_RETAIN_GIDS | F_NOTDEF_OUTLINE, 0x01, 0x10 | F_NOTDEF_OUTLINE]);
+    let mut gids = vec![];
+    let k = match r.below(4) {
+        0 => 1,
+        1 => n.min(3),
+        2 => (n / 2).max(1),
+        _ => n,
+    };
+    for _ in 0..k.min(300) {
+        gids.push(r.below(n as u64) as u32);
+    }
+    gids.sort();
+    gids.dedup();
+    let mut unicodes = vec![];
+    if !cmap_cps.is_empty() && r.chance(1, 3) {
+        for _ in 0..1 + r.below(4) {
+            unicodes.push(*r.pick(cmap_cps));
+        }
+        unicodes.sort();
+        unicodes.dedup();
+    }
+    Req { gids, unicodes, flags }
+}
+
+fn corpus_fonts() -> Vec<(String, Vec<u8>)> {
+    let mut out = vec![];
+    for dir in ["/repo/font-test-data/test_data/ttf", "/repo/klippa/test-data/fonts"] {
+        let mut files: Vec<_> = std::fs::read_dir(dir).map(|d| d.filter_map(|e| e.ok()).map(|e| e.path()).collect()).unwrap_or_default();
+        files.sort();
+        for p in files {
+            let ext = p.extension().and_then(|e| e.to_str()).unwrap_or("");
+            if ext != "ttf" && ext != "otf" {
+                continue;
+            }
+            let Ok(data) = std::fs::read(&p) else { continue };
+            let has = FontRef::new(&data).ok().map(|f| f.gvar().is_ok()).unwrap_or(false);
+            if has {
+                out.push((format!("corpus:{}", p.file_name().unwrap().to_string_lossy()), data));
+            }
+        }
+    }
+    out
+}
+
+pub fn run(cfg: &Config, s: &mut Session, r: &mut Rng) {
+    let th = cfg.thorough();
+
+    // (β1) small random variable fonts
+    for id in 0..(if th { 4000 } else { 220 }) {
+        let sf = syn_small(r, id);
+        let data = build_font(&sf);
+        let n = sf.npts.len();
+        let all_valid = sf.tail_cut == 0;
+        let fc = Ctx { label: sf.name.clone(), data: &data, valid: Some(sf.valid.clone()), draw: all_valid && id % 2 == 0 };
+        let cps: Vec<u32> = (1..n.min(90)).map(|g| 0x40 + g as u32).collect();
+        read_cases(s, &data, (n as u32 + 2).min(24));
+        for _ in 0..(if th { 5 } else { 3 }) {
+            let req = rand_request(r, n, &cps);
+            run_request(s, &fc, &req);
+        }
+    }
+
+    // (β2) kept totals around the short/long limit 0x1FFFE; distractor glyphs in FRONT of the kept ones
+    let targets: Vec<usize> = if th {
+        vec![0xFFFE, 0x10000, 0x18001, 0x1FFF0, 0x1FFFB, 0x1FFFC, 0x1FFFD, 0x1FFFE, 0x1FFFF, 0x20000, 0x20001, 0x20002, 0x20003, 0x28001, 0x30000]
+    } else {
+        vec![0x10000, 0x1FFFC, 0x1FFFD, 0x1FFFE, 0x1FFFF, 0x20000, 0x20001, 0x28001]
+    };
+    for t in targets {
+        for (vi, (unit, ndis, long_src)) in [(1000usize, 0usize, true), (1001, 12, true), (1000, 7, false), (999, 30, true)].into_iter().enumerate() {
+            if !long_src && t > 0x1FFFE - ndis * 10 - 20 {
+                continue;
+            }
+            // gid 0: 20 bytes; distractors: 6 bytes each; k units; one tuner
+            let k = (t - 60) / unit;
+            let tuner = t - k * unit;
+            let mut sizes = vec![20usize];
+            sizes.extend(std::iter::repeat(6).take(ndis));
+            sizes.extend(std::iter::repeat(unit).take(k));
+            sizes.push(tuner);
+            sizes.extend([500usize, 77]);
+            let sf = syn_sized(
+                &format!("syn:gvar-sized-{t:#x}-v{vi}"),
+                &sizes,
+                long_src,
+                [0u16, 3, 1, 2][vi],
+                [SharedAt::Before, SharedAt::After, SharedAt::Before, SharedAt::Null][vi],
+                r,
+            );
+            let data = build_font(&sf);
+            let fc = Ctx { label: sf.name.clone(), data: &data, valid: Some(sf.valid.clone()), draw: false };
+            let first = 1 + ndis as u32;
+            let keep: Vec<u32> = (first..first + k as u32 + 1).collect();
+            for flags in [0u16, F_RETAIN_GIDS, F_NOTDEF_OUTLINE] {
+                // with the notdef outline kept its 20 bytes count: shrink the kept range by dropping nothing, the
+                // neighbouring targets cover the other side of the limit
+                run_request(s, &fc, &Req { gids: keep.clone(), unicodes: vec![], flags });
+            }
+        }
+    }
+
+    // (β3) many glyphs, sparse requests (long gap-fill runs, trailing fill)
+    for (i, n) in (if th { vec![700usize, 3000, 9000, 20000] } else { vec![700usize, 3000] }).into_iter().enumerate() {
+        let mut sf = syn_small(r, 100_000 + i as u64);
+        sf.name = format!("syn:gvar-many-{n}");
+        sf.npts = vec![3; n];
+        sf.tail_cut = 0;
+        sf.valid = (0..n).map(|g| g % 3 == 2 || g % 2 == 0).collect();
+        sf.blobs = (0..n)
+            .map(|g| {
+                if g % 3 == 2 {
+                    vec![]
+                } else if g % 2 == 0 {
+                    valid_blob(r, 7, sf.axis_count, if sf.shared_at == SharedAt::Null { 0 } else { sf.shared_count })
+                } else {
+                    let len = 1 + r.below(9) as usize;
+                    r.bytes(len)
+                }
+            })
+            .collect();
+        let data = build_font(&sf);
+        let fc = Ctx { label: sf.name.clone(), data: &data, valid: Some(sf.valid.clone()), draw: false };
+        for flags in [F_RETAIN_GIDS, F_RETAIN_GIDS | F_NOTDEF_OUTLINE, 0] {
+            let mut gids: Vec<u32> = (0..12).map(|_| r.below(n as u64) as u32).collect();
+            gids.push(n as u32 - 1 - r.below(3) as u32);
+            gids.sort();
+            gids.dedup();
+            run_request(s, &fc, &Req { gids, unicodes: vec![], flags });
+        }
+        run_request(s, &fc, &Req { gids: (0..n as u32).collect(), unicodes: vec![], flags: F_NOTDEF_OUTLINE });
+    }
+
+    // (β4) hostile headers: shared tuples that do not fit the table; sizes that do not fit u32
+    for (i, at) in [SharedAt::Beyond, SharedAt::Beyond, SharedAt::After].into_iter().enumerate() {
+        let mut sf = syn_small(r, 200_000 + i as u64);
+        sf.name = format!("syn:gvar-hostile#{i}");
+        sf.shared_at = at;
+        sf.tail_cut = 0;
+        if i == 0 {
+            sf.shared_count = 3;
+            sf.shared = rand_shared(r, sf.axis_count, 3);
+        } else if i == 1 {
+            sf.shared_count = 0;
+            sf.shared = vec![];
+        } else {
+            // 2 * 0xFFFF * 0xFFFF + header does not fit u32
+            sf.axis_count = 0xFFFF;
+            sf.shared_count = 0xFFFF;
+            sf.shared = vec![0; 8];
+            sf.blobs = sf.blobs.iter().map(|b| if b.is_empty() { vec![] } else { vec![7; 5] }).collect();
+            sf.valid = vec![false; sf.blobs.len()];
+        }
+        let mut sf2 = sf.clone();
+        if i == 2 {
+            // fvar with 65535 axes would be 1.3 MB: keep fvar small, gvar says 0xFFFF on its own
+            sf2.axis_count = 1;
+        }
+        let mut data = build_font(&sf2);
+        if i == 2 {
+            let f = FontRef::new(&data).unwrap();
+            let mut b = FontBuilder::new();
+            b.add_raw(Tag::new(b"gvar"), build_gvar(&sf));
+            b.copy_missing_tables(f);
+            data = b.build();
+        }
+        let fc = Ctx { label: sf.name.clone(), data: &data, valid: Some(sf.valid.clone()), draw: false };
+        let n = sf.npts.len();
+        for _ in 0..3 {
+            let req = rand_request(r, n, &[]);
+            run_request(s, &fc, &req);
+        }
+    }
+
+    // (β5) serializer room: 10000 glyphs, a gvar table that knows only a few of them (its length bounds the
+    // buffer sizes tried: 8192, then * 2 + 16 while <= 256 * table length)
+    for (i, known) in [0usize, 3, 40].into_iter().enumerate() {
+        let n = 10_000;
+        let mut sf = syn_small(r, 300_000 + i as u64);
+        sf.name = format!("syn:gvar-room-known{known}");
+        sf.npts = vec![3; n];
+        sf.tail_cut = 0;
+        sf.shared_at = SharedAt::Before;
+        sf.blobs = (0..known).map(|g| if g % 2 == 0 { vec![] } else { r.bytes(5 + g % 4) }).collect();
+        sf.valid = vec![false; known];
+        let data = build_font(&sf);
+        let fc = Ctx { label: sf.name.clone(), data: &data, valid: Some(sf.valid.clone()), draw: false };
+        for (top, flags) in [(4000u32, F_RETAIN_GIDS), (4075, F_RETAIN_GIDS | F_NOTDEF_OUTLINE), (4090, F_RETAIN_GIDS), (6100, F_RETAIN_GIDS), (8170, F_RETAIN_GIDS), (8190, F_RETAIN_GIDS), (9999, F_RETAIN_GIDS), (9999, 0)] {
+            run_request(s, &fc, &Req { gids: vec![1, 2, 3, top], unicodes: vec![], flags });
+        }
+    }
+
+    // (α) corpus fonts with a gvar table
+    for (label, data) in corpus_fonts() {
+        let Ok(font) = FontRef::new(&data) else { continue };
+        let n = font.maxp().map(|m| m.num_glyphs() as usize).unwrap_or(0);
+        if n == 0 || font.cmap().is_err() {
+            // Plan::new requires a cmap table (cvar.ttf has none)
+            s.count("gvar:corpus-font-skipped(no cmap)");
+            continue;
+        }
+        s.count("gvar:corpus-fonts");
+        let cps: Vec<u32> = font.charmap().mappings().map(|(c, _)| c).take(4000).collect();
+        let fc = Ctx { label, data: &data, valid: None, draw: false };
+        for _ in 0..(if th { 40 } else { 5 }) {
+            let req = rand_request(r, n, &cps);
+            run_request(s, &fc, &req);
+        }
+        run_request(s, &fc, &Req { gids: (0..n as u32).collect(), unicodes: vec![], flags: F_NOTDEF_OUTLINE });
+    }
+}
